@@ -86,6 +86,23 @@ Proof.
     + simpl. f_equal. exact Keys.
 Qed.
 
+Lemma dc_entries1_spec N cs h h' cs' :
+  dc_entries1 h cs = Some (h', cs') -> wf h -> (N <= length h)%nat -> closed_above N h ->
+  ext h h' /\ wf h' /\ closed_above N h' /\ cells_ok N h' cs' /\ map fst cs' = map fst cs.
+Proof.
+  unfold dc_entries1. destruct (dc_cells (dc (S (length h))) h [] cs) as [[[h1 m1] cs1]|] eqn:D; [|discriminate].
+  intros H W L C. inversion H; subst.
+  destruct (dc_cells_good N (dc (S (length h))) (dc_is_good N _) cs h [] h' m1 cs' D (inv_nil N h L W C))
+    as ((_ & W1 & C1 & _) & X & K1 & Keys).
+  repeat split; auto.
+Qed.
+
+(* both memo policies *)
+Lemma dc_entries_pol_spec single N cs h h' cs' :
+  dc_entries_pol single h cs = Some (h', cs') -> wf h -> (N <= length h)%nat -> closed_above N h ->
+  ext h h' /\ wf h' /\ closed_above N h' /\ cells_ok N h' cs' /\ map fst cs' = map fst cs.
+Proof. destruct single; cbn [dc_entries_pol]; [apply dc_entries1_spec | apply dc_entries_spec]. Qed.
+
 Lemma in_refs_dict_update kd : forall new base l,
   In l (refs (mkObj kd (dict_update base new))) -> In l (refs (mkObj kd base)) \/ In l (refs (mkObj kd new)).
 Proof.
@@ -119,7 +136,7 @@ Proof.
   destruct (deepcopy h sp) as [[h1 sp']|] eqn:D; [|discriminate].
   destruct (init_M h1 c K (default_iargs K (val_src sp') (arr_len h r [V N_status]))) as [[h2 r2] ok] eqn:I.
   cbn [fst snd] in H. destruct ok; [|discriminate].
-  destruct (dc_entries h2 (ocells o)) as [[h3 cs']|] eqn:E; [|discriminate].
+  destruct (dc_entries_pol (k_single_memo K) h2 (ocells o)) as [[h3 cs']|] eqn:E; [|discriminate].
   destruct (nth_error h3 r2) as [o'|] eqn:Eo'; [|discriminate].
   inversion H; subst; clear H.
   set (N := length h).
@@ -128,7 +145,7 @@ Proof.
   assert (IA : iargs_above N (h1 ++ [mkObj (KCont c) []]) (default_iargs K (val_src sp') (arr_len h r [V N_status]))).
   { split; simpl; auto. destruct sp' as [z|l]; simpl; auto. simpl in V1. rewrite app_length; simpl; lia. }
   destruct (init_M_spec N _ _ _ _ _ _ _ I W1 ltac:(unfold N; lia) C1 IA) as (W2 & C2 & -> & L2 & U2).
-  destruct (dc_entries_spec N _ _ _ _ E W2 ltac:(unfold N; lia) C2) as (X3 & W3 & C3 & K3 & _).
+  destruct (dc_entries_pol_spec _ N _ _ _ _ E W2 ltac:(unfold N; lia) C2) as (X3 & W3 & C3 & K3 & _).
   pose proof (ext_length _ _ X3) as L3.
   assert (Ro' : forall l, In l (refs o') -> (N <= l < length h3)%nat).
   { intros l Hl. split; [eapply C3; eauto; unfold N; lia | eapply W3; eauto]. }
@@ -189,7 +206,7 @@ Proof.
   set (h2 := h1 ++ [mkObj KDict cs']) in *.
   destruct (init_M h2 c K (linker_iargs h2 K (length h1) (k_linker_name K))) as [[h3 r3] ok] eqn:I.
   cbn [fst snd] in H. destruct ok; [|discriminate].
-  destruct (dc_entries h3 (filter (fun kv => negb (fst kv =? A N_submodels)) (ocells o))) as [[h4 es]|] eqn:E; [|discriminate].
+  destruct (dc_entries_pol (k_single_memo K) h3 (filter (fun kv => negb (fst kv =? A N_submodels)) (ocells o))) as [[h4 es]|] eqn:E; [|discriminate].
   destruct (nth_error h4 r3) as [o'|] eqn:Eo'; [|discriminate].
   inversion H; subst; clear H.
   set (N := length h).
@@ -202,7 +219,7 @@ Proof.
   assert (IA : iargs_above N (h2 ++ [mkObj (KCont c) []]) (linker_iargs h2 K (length h1) (k_linker_name K))).
   { apply linker_iargs_above. rewrite app_length; simpl. fold N in L1. lia. }
   destruct (init_M_spec N _ _ _ _ _ _ _ I W2 ltac:(fold N in L1; lia) C2 IA) as (W3 & C3 & -> & L3 & U3).
-  destruct (dc_entries_spec N _ _ _ _ E W3 ltac:(fold N in L1; lia) C3) as (X4 & W4 & C4 & K4 & _).
+  destruct (dc_entries_pol_spec _ N _ _ _ _ E W3 ltac:(fold N in L1; lia) C3) as (X4 & W4 & C4 & K4 & _).
   pose proof (ext_length _ _ X4) as L4. fold N in L1.
   assert (Rn : forall l, In l (refs (mkObj (okind o') (dict_update (ocells o') es))) -> (N <= l < length h4)%nat).
   { intros l Hl. apply in_refs_dict_update in Hl. destruct Hl as [Hl|Hl].
